@@ -818,6 +818,33 @@ func (c *Ctx) rejectEdgesD(b *ana.Builder, patterns []string, depth int) []ana.E
 		if ce.Lit.Op == "and" {
 			continue // failing a conjunction is legitimate only if every conjunct's failure is (handled by LitMatches on `or`)
 		}
+		// a first-violation scanner reported a position (H(x) >= 0, H(x) != -1): legitimate when H
+		// returns anything but a negative constant only through such edges
+		if bd, ok := ana.MatchAny(ce.Lit, "raw:bin<>=>($h, 0)", "raw:bin<!=>($h, -1)"); ok {
+			call := stripObj(bd["$h"])
+			if h := calleeOf(call); call.Op == "call" && h != nil && h.Blocks != nil && ana.InRepo(h) && len(call.Args) == len(h.Params) && len(ana.BackEdges(h)) > 0 {
+				hb := c.boundBuilder(call)
+				avoid := ana.ReachableAvoiding(h, c.rejectEdgesD(hb, patterns, depth+1))
+				all, n := true, 0
+				for _, e := range ana.Exits(h) {
+					if e.Panic || len(e.Results) != 1 {
+						all = false
+						continue
+					}
+					if k, isInt := hb.Of(e.Results[0], e.Instr).Int(); isInt && k < 0 {
+						continue
+					}
+					n++
+					if avoid[e.Instr.Block()] {
+						all = false
+					}
+				}
+				if all && n > 0 {
+					es = append(es, ce.Edge)
+					continue
+				}
+			}
+		}
 		for _, lit := range lits {
 			o, ok := helperOutcome(lit)
 			if !ok || (o.kind != "nonnil" && o.kind != "false") {
@@ -1063,6 +1090,67 @@ func deepCallTerms(c *Ctx, b *ana.Builder) []*ana.Term {
 		}
 	}
 	rec(b, 0)
+	return out
+}
+
+// scanGates lists the edges of b's function that establish "every element of
+// a collection satisfies a predicate": the exit edge of a loop that loopOK
+// accepts (it continues only while the predicate holds), or the edge on which a
+// first-violation scanner H(x) — a repository helper whose own loop loopOK
+// accepts with its parameters bound to the arguments, and which returns a
+// negative value only after completing that loop — reported "none found"
+// (H(x) < 0, H(x) == -1).
+func scanGates(c *Ctx, b *ana.Builder, loopOK func(b2 *ana.Builder, l *rangeLoop) bool) []ana.Edge {
+	var out []ana.Edge
+	loops := rangeLoopsAll(b)
+	for i := range loops {
+		if loopOK(b, &loops[i]) {
+			out = append(out, ana.Edge{From: loops[i].Header, To: loops[i].Exit})
+		}
+	}
+	for _, ce := range b.CondEdges() {
+		bd, ok := ana.MatchAny(ce.Lit, "raw:bin<<>($h, 0)", "raw:bin<==>($h, -1)")
+		if !ok {
+			continue
+		}
+		call := stripObj(bd["$h"])
+		h := calleeOf(call)
+		if call.Op != "call" || h == nil || h.Blocks == nil || !ana.InRepo(h) || len(call.Args) != len(h.Params) {
+			continue
+		}
+		hb := boundBuilderP(c.P, call)
+		var gate []ana.Edge
+		hl := rangeLoopsAll(hb)
+		for i := range hl {
+			if loopOK(hb, &hl[i]) {
+				gate = append(gate, ana.Edge{From: hl[i].Header, To: hl[i].Exit})
+			}
+		}
+		if len(gate) == 0 {
+			continue
+		}
+		good := true
+		for _, e := range ana.Exits(h) {
+			if e.Panic || len(e.Results) != 1 {
+				good = false
+				continue
+			}
+			v := hb.Of(e.Results[0], e.Instr)
+			if k, isInt := v.Int(); isInt && k >= 0 {
+				continue
+			}
+			if _, m := ana.MatchAny(v, "ind<+1>(0)", "ext#1(next(range(_)))", "bin<+>(ind<+1>(-1), 1)"); m {
+				continue // a position: never negative
+			}
+			if !mustPass(h, e.Instr.Block(), gate) {
+				good = false
+			}
+		}
+		if good {
+			c.R.Fn(ana.ShortFunc(h))
+			out = append(out, ce.Edge)
+		}
+	}
 	return out
 }
 
